@@ -506,4 +506,87 @@ theorem renderTok_ne_nil_rc (cfg : LexCfg) (h : CfgRC cfg) (t : CTok) (hok : tok
   rw [he, List.append_nil, nextToken_nil] at h1
   cases h1
 
+/-! ### either mode -/
+
+/-- a configuration of either lexer mode -/
+def CfgAny (cfg : LexCfg) : Prop := CfgOK cfg ∨ CfgRC cfg
+
+instance (cfg : LexCfg) : Coe (CfgOK cfg) (CfgAny cfg) := ⟨Or.inl⟩
+instance (cfg : LexCfg) : Coe (CfgRC cfg) (CfgAny cfg) := ⟨Or.inr⟩
+
+theorem CfgAny.base {cfg : LexCfg} (h : CfgAny cfg) : CfgBase cfg := by
+  rcases h with h | h
+  · exact h.toCfgBase
+  · exact h.toCfgBase
+
+theorem nextToken_renderTok_any (cfg : LexCfg) (h : CfgAny cfg) (t : CTok) (rest : List Char)
+    (hok : tokOK cfg t = true) (hf : follow cfg t rest = true) :
+    nextToken cfg (renderTok cfg t ++ rest) = some (t, rest) := by
+  rcases h with h | h
+  · exact nextToken_renderTok cfg h t rest hok hf
+  · exact nextToken_renderTok_rc cfg h t rest hok hf
+
+theorem renderTok_ne_nil_any (cfg : LexCfg) (h : CfgAny cfg) (t : CTok) (hok : tokOK cfg t = true) :
+    renderTok cfg t ≠ [] := by
+  rcases h with h | h
+  · exact renderTok_ne_nil cfg h t hok
+  · exact renderTok_ne_nil_rc cfg h t hok
+
+/-- the token loop gives a well-formed glue-free token list back (either mode, any fuel above
+    the number of tokens) -/
+theorem lexN_render_any (cfg : LexCfg) (h : CfgAny cfg) :
+    ∀ (ts : List CTok) (n : Nat), ts.length < n → (∀ t, t ∈ ts → tokOK cfg t = true) →
+      glueFree cfg ts = true → lexN cfg n (render cfg ts) = ts
+  | [], n, hn, _, _ => by
+    cases n with
+    | zero => rfl
+    | succ m => simp [lexN, render, nextToken_nil]
+  | [t], n, hn, hok, _ => by
+    cases n with
+    | zero => simp at hn
+    | succ m =>
+      have ht := hok t (List.mem_cons_self ..)
+      have h1 := nextToken_renderTok_any cfg h t [] ht rfl
+      simp only [List.append_nil] at h1
+      simp only [render, List.flatMap_cons, List.flatMap_nil, List.append_nil, lexN, h1]
+      cases m with
+      | zero => rfl
+      | succ k => simp [lexN, nextToken_nil]
+  | t :: u :: ts, n, hn, hok, hg => by
+    cases n with
+    | zero => simp at hn
+    | succ m =>
+      simp only [glueFree, Bool.and_eq_true, Bool.not_eq_true', List.isEmpty_eq_false_iff] at hg
+      obtain ⟨⟨hfu, hne⟩, hg'⟩ := hg
+      have ht := hok t (List.mem_cons_self ..)
+      have hfol : follow cfg t (render cfg (u :: ts)) = true := by
+        obtain ⟨c, tl, hc⟩ := List.exists_cons_of_ne_nil hne
+        simp only [render, List.flatMap_cons] at hc ⊢
+        rw [hc] at hfu ⊢
+        simpa [follow] using hfu
+      have h1 := nextToken_renderTok_any cfg h t (render cfg (u :: ts)) ht hfol
+      have ih := lexN_render_any cfg h (u :: ts) m (by simp at hn ⊢; omega)
+        (fun x hx => hok x (List.mem_cons_of_mem _ hx)) hg'
+      have hr : render cfg (t :: u :: ts) = renderTok cfg t ++ render cfg (u :: ts) := by
+        simp [render]
+      rw [hr, lexN, h1]
+      simp only [ih]
+
+theorem lex_render_any (cfg : LexCfg) (h : CfgAny cfg) (ts : List CTok)
+    (hok : ∀ t, t ∈ ts → tokOK cfg t = true) (hg : glueFree cfg ts = true) :
+    lex cfg (render cfg ts) = ts := by
+  unfold lex
+  apply lexN_render_any cfg h ts _ _ hok hg
+  have : ts.length ≤ (render cfg ts).length := by
+    clear hg
+    induction ts with
+    | nil => simp
+    | cons t tl ih =>
+      have hne := renderTok_ne_nil_any cfg h t (hok t (List.mem_cons_self ..))
+      have ih' := ih (fun x hx => hok x (List.mem_cons_of_mem _ hx))
+      have hpos : 0 < (renderTok cfg t).length := List.length_pos_iff.mpr hne
+      simp only [render, List.flatMap_cons, List.length_append, List.length_cons] at ih' ⊢
+      omega
+  omega
+
 end IronCalc.Formula
